@@ -33,6 +33,11 @@ func VerifC18Cmd() {
 	bt := m.SysEx()
 	zz.Assert(len(bt) >= 5 && bt[0] == 0xF0 && bt[len(bt)-1] == 0xF7, "framing")
 	var p Message
+	if zz.Choice("reuse", 2) == 1 {
+		// the same Message value parsed a machine control response before
+		resp := []byte{0xF0, 0x7F, zz.U8("rdev"), 0x07, zz.U8("r1"), zz.U8("r2"), 0xF7}
+		_ = p.Parse(resp)
+	}
 	zz.Known("C18-mmc-command-length", true)
 	err := p.Parse(bt)
 	zz.Assert(err == nil, "parse-accepts-built")
